@@ -1136,6 +1136,7 @@ func (s *Server) SetReplicationModeConfig(cfg config.ReplicationModeConfig) erro
 	if config.NormalizeReplicationMode(cfg.ReplicationMode) == "" {
 		return errors.Errorf("invalid replication mode: %v", cfg.ReplicationMode)
 	}
+	cfg.ReplicationMode = config.NormalizeReplicationMode(cfg.ReplicationMode)
 
 	old := s.persistOptions.GetReplicationModeConfig()
 	s.persistOptions.SetReplicationModeConfig(&cfg)
